@@ -331,7 +331,11 @@ func c20RaceSub() *engine.Sub {
 		NewCase: func() any { return &c20RaceCase{} },
 		Run: func(ctx *engine.Ctx, c any) {
 			cs := c.(*c20RaceCase)
-			cmd := exec.Command("go", "test", "-tags", "verif", "-race", "-count=1", "-json", "./racepass")
+			args := []string{"test", "-tags", "verif", "-race", "-count=1", "-json", "-run", "TestPairs|TestFirstUse"}
+			if ov := os.Getenv("VERIF_OVERLAY"); ov != "" {
+				args = append(args, "-overlay", ov)
+			}
+			cmd := exec.Command("go", append(args, "./racepass")...)
 			cmd.Dir = harnessDir()
 			cmd.Env = append(os.Environ(), "GOFLAGS=-mod=mod", "GOPROXY=off", "GOSUMDB=off", "GOTOOLCHAIN=local")
 			if cs.Only != "" {
